@@ -51,10 +51,17 @@ def main():
             "nest": "c = lw.Circuit(3); c.add(make_sub('h3mid'), 1); c.bs(0, 2, reflectivity=%r); c.herald(1, 2, 0)" % env.R2,
             "grp": "c = lw.Circuit(3); c.add(make_sub('bs2'), 1, group=True); c.add(make_sub('h3io'), 0); c.ps(2, %r)" % env.PH[0],
             "h5three": "c = lw.Unitary(haar(5, %d)); c.herald(1, 1, 1); c.herald(0, 4, 2); c.herald(1, 3, 4)" % (seed + 555),
+            "grpplain": "c = lw.Circuit(3); c.add(make_sub('bs2'), 1, group=True); c.ps(0, %r); c.barrier([1, 2])" % env.PH[1],
+            "h2all": "c = lw.Circuit(2); c.bs(0, reflectivity=%r); c.herald(1, 0); c.herald(0, 1)" % env.R[1],
+            "empty2": "c = lw.Circuit(2)",
+            "bar2": "c = lw.Circuit(2); c.bs(0, reflectivity=%r); c.barrier([0, 1]); c.ps(1, %r)" % (env.R2, env.PH[2]),
+            "h3swapend": "c = lw.Circuit(3); c.bs(0, reflectivity=%r); c.bs(1, reflectivity=%r, convention='H'); "
+                         "c.mode_swaps({0: 1, 1: 2, 2: 0}); c.herald(1, 0, 1)" % (env.R[1], env.R2),
         }
         need = set(subs_needed)
         if "nest" in need: need.add("h3mid")
         if "grp" in need: need |= {"bs2", "h3io"}
+        if "grpplain" in need: need.add("bs2")
         for nm in sorted(need):
             if nm.startswith("sys:"):
                 _, T, pos = nm.split(":")
@@ -90,6 +97,13 @@ def main():
             call = "c.mode_swaps(%r)" % ({a: b for a, b in op[1]},)
         elif k == "uni":
             call = "c.add(lw.Unitary(haar(%d, %d)), %r, group=%r)" % (op[1], seed + 10 + op[1], op[2], op[3])
+        elif k == "blk":
+            call = ("_s = lw.Circuit(2); _s.bs(0, reflectivity=%r); _s.barrier([0, 1]); _s.ps(1, %r); "
+                    "_s.bs(1, 0, reflectivity=%r, convention='H'); c.add(_s, %r, group=True, name='block')"
+                    % (env.R2, env.PH[2], env.R[1], op[1]))
+        elif k == "psnp":
+            v = "np.%s(%r)" % (op[2], op[3])
+            call = "c.ps(%r, %s)" % (op[1], "lw.Parameter(%s)" % v if len(op) > 4 and op[4] else v)
         elif k == "uni_bad":
             call = "c.add(lw.Unitary(np.array([[1, 0.2], [0, 1]], dtype=complex)), %r)" % op[2]
         elif k == "bar":
